@@ -71,9 +71,30 @@ Lemma {T}_optimal : forall {vars} s : R, v0 * v0 + v1 * v1 + v2 * v2 <> 0 -> {T}
   | _ => False end.
 Proof. intros {vars} s Hd Hpath Hs. rewrite ({T}_ok {vars} Hd Hpath). cbn [vlist app].
   rewrite <- V3_eta_seg. apply closest_point_optimal. exact Hs. Qed.""" % (P, A, V, P, A, V, script, P, A, V, P)
+    # clamped scenarios: the t value comes back as the concrete 0 / 1 (pinned by expect_structure)
+    lemma_clamped = """Lemma {T}_ok : forall {vars} : R, v0 * v0 + v1 * v1 + v2 * v2 <> 0 -> {T}_path ROps {vars} ->
+  {T} ROps {vars} = vlist (closest_point ROps %s %s %s) /\\ closest_t ROps %s %s %s = TVAL.
+Proof. intros {vars} Hd Hpath. split.
+  - %s
+    list_eq ltac:(first [reflexivity | ring]).
+  - %s
+    try reflexivity; lra. Qed.
+Lemma {T}_optimal : forall {vars} s : R, v0 * v0 + v1 * v1 + v2 * v2 <> 0 -> {T}_path ROps {vars} -> 0 <= s <= 1 ->
+  match {T} ROps {vars} with
+  | [c0; c1; c2] => sqdist ROps (V3 c0 c1 c2) %s <= sqdist ROps (vadd ROps %s (vscale ROps s %s)) %s
+  | _ => False end.
+Proof. intros {vars} s Hd Hpath Hs. rewrite (proj1 ({T}_ok {vars} Hd Hpath)). cbn [vlist].
+  rewrite <- V3_eta_seg. apply closest_point_optimal. exact Hs. Qed.""" % (P, A, V, P, A, V, script, script, P, A, V, P)
     pre = "Lemma V3_eta_seg (c : vec3 R) : c = V3 (vx c) (vy c) (vz c).\nProof. destruct c; reflexivity. Qed.\n"
-    for name, pval in (("closest_before", [-2.0, 1.0, 0.5]), ("closest_inside", [1.0, 1.5, -0.5]), ("closest_after", [5.0, 2.0, 1.0])):
-        ks.append(Kernel(name, {"p": pval, "a": [0.5, 0.25, 0.0], "v": [2.0, 1.0, 0.5]}, cp, pre + lemma, imports=_IMPORTS))
+    for name, pval, tval in (("closest_before", [-2.0, 1.0, 0.5], 0), ("closest_inside", [1.0, 1.5, -0.5], None),
+                             ("closest_after", [5.0, 2.0, 1.0], 1)):
+        if tval is None:
+            lem, st = lemma, {"tuple": [{"shape": [1, 3], "data": ["e", "e", "e"]}, {"shape": [1], "data": ["e"]}]}
+        else:
+            lem = lemma_clamped.replace("TVAL", str(tval))
+            st = {"tuple": [{"shape": [1, 3], "data": ["e", "e", "e"]}, {"shape": [1], "data": [tval]}]}
+        ks.append(Kernel(name, {"p": pval, "a": [0.5, 0.25, 0.0], "v": [2.0, 1.0, 0.5]}, cp, pre + lem, imports=_IMPORTS,
+                         expect_structure=st))
 
     # is_point_on_line_segment: concrete boolean; the decided comparison is the model's
     def on(p, a, v, e):
@@ -178,7 +199,7 @@ def _perm(rng, pts):
     return [[p[ax[0]], p[ax[1]], p[ax[2]]] for p in pts], ax
 
 
-def _query_near(rng, vs, closed, ax):
+def _query_near(rng, vs, closed, ax, sc=1.0):
     """a point near the polyline: on a segment at a dyadic parameter, moved off a little"""
     segs = _segs(vs, closed)
     a, b = segs[rng.randrange(len(segs))]
@@ -187,9 +208,9 @@ def _query_near(rng, vs, closed, ax):
     off = [0.0, 0.0, 0.0]
     normal_axis = ax.index(2)          # the coordinate that is constant on the polyline
     if rng.random() < 0.6:
-        off[normal_axis] = rng.choice([0.125, -0.25, 0.0])
+        off[normal_axis] = rng.choice([0.125, -0.25, 0.0]) * sc
     else:
-        off = [rng.choice([0.0, 0.0625, -0.0625]) for _ in range(3)]
+        off = [rng.choice([0.0, 0.0625, -0.0625]) * sc for _ in range(3)]
     return [x + y for x, y in zip(p, off)]
 
 
@@ -250,10 +271,13 @@ def gen_cases(rng, n, tier):
                           "eps": eps * sc})
         else:
             closed = rng.random() < 0.5
+            # index_of_vertex uses an ABSOLUTE tolerance of 1e-8: keep the geometry well above it
+            # (the property speaks about queries not within 1e-3 of a vertex)
+            sc = max(sc, 2.0 ** -10)
             pts, ax = _perm(rng, _simple_closed(rng) if closed else _simple_open(rng))
             pts = [[x * sc for x in p] for p in pts]
-            a = _query_near(rng, pts, closed, ax)
-            b = _query_near(rng, pts, closed, ax)
+            a = _query_near(rng, pts, closed, ax, sc)
+            b = _query_near(rng, pts, closed, ax, sc)
             if rng.random() < 0.15:
                 a = list(rng.choice(pts))                       # exactly a vertex
             fv = [_F3(p) for p in pts]
